@@ -411,6 +411,15 @@ def part_b(chk, full_bits):
     check_biterrors(chk, A[:, ::-2], B[:, ::-2], "int64_2d_strided_views")
     check_biterrors(chk, A.reshape(2, 3, m // 6).swapaxes(0, 1), B.reshape(2, 3, m // 6).swapaxes(0, 1),
                     "int64_3d_swapaxes")
+    # the whole uint64 range (bit 62 and bit 63 included): "all pairs of non-negative integer arrays";
+    # every value with <= 2 set bits among 64 (2081 values), all pairs of them
+    u2 = sorted(set([0] + [1 << i for i in range(64)] + [(1 << i) | (1 << j) for i in range(64) for j in range(i)]))
+    u2 = np.array(u2, dtype=np.uint64)
+    chk.extra["bit_error_values_uint64_full_range"] = int(u2.size)
+    for i in range(0, u2.size, 1 if chk.tier == "thorough" else 7):
+        check_biterrors(chk, np.full(u2.size, u2[i], dtype=np.uint64), u2, "uint64_full_range_1d")
+    mu = (u2.size // 6) * 6
+    check_biterrors(chk, u2[-mu:].reshape(6, mu // 6), u2[::-1][-mu:].reshape(6, mu // 6), "uint64_full_range_2d")
     lo = v2[v2 < 2 ** 31 - 1]
     check_biterrors(chk, lo.astype(np.int32), lo[::-1].astype(np.int32), "int32_1d")
     check_biterrors(chk, lo.astype(np.uint32), lo[::-1].astype(np.uint32), "uint32_1d")
@@ -433,7 +442,7 @@ def part_b(chk, full_bits):
 def main(chk: Check):
     thorough = chk.tier == "thorough"
     chk.assume("minimum-distance pairs are those within dmin*(1+1e-9) by brute-force pairwise distances")
-    chk.assume("integers >= 2^62 and negative integers are outside the property's domain")
+    chk.assume("code conversions: integers >= 2^62 and negative integers are outside the property's domain; bit-error counting: every non-negative integer of the array dtype, uint64 up to 2^64-1")
     part_a(chk, 12, 3 if thorough else 2, [4 ** i for i in range(1, 7)])
     part_b(chk, 24 if thorough else 20)
     chk.sample({"part": "A", "kind": "psk", "M": 8, "history": [["new", 0.0], ["set", 1.0]]})
